@@ -130,7 +130,7 @@ impl Check for C10 {
     type Case = Case;
     const ID: &'static str = "C10";
     fn runs(t: Tier) -> u64 {
-        t.pick(30_000, 2_000_000)
+        t.pick(200_000, 6_000_000)
     }
     fn generate(rng: &mut Rng, tier: Tier, idx: u64) -> Case {
         if idx % 2 == 0 {
